@@ -4,16 +4,28 @@ mod gn;
 mod nums;
 mod oracles;
 mod shadow;
+mod threads;
+mod traitsuite;
 
 use exec::Exec;
 use std::fs::File;
 use std::io::{BufRead, BufWriter, Write};
+
+#[derive(Default)]
+pub struct OracleStats {
+    pub evaluations: u64,
+    pub distinct_nontrivial: u64,
+    pub samples: Vec<String>,
+    pub detail: Vec<(String, u64)>,
+    pub exhaustive: bool,
+}
 
 pub struct Sink {
     pub ex: Exec,
     script: Option<BufWriter<File>>,
     obs: Option<BufWriter<File>>,
     pub echo: bool,
+    pub oracle: OracleStats,
 }
 
 impl Sink {
@@ -30,7 +42,7 @@ impl Sink {
             }
             None => (None, None),
         };
-        Sink { ex, script, obs, echo: false }
+        Sink { ex, script, obs, echo: false, oracle: OracleStats::default() }
     }
     pub fn line(&mut self, l: &str) {
         if let Some(s) = self.script.as_mut() {
@@ -51,6 +63,11 @@ impl Sink {
     pub fn lines(&mut self, ls: &[String]) {
         for l in ls {
             self.line(l);
+        }
+    }
+    pub fn fail(&mut self, props: &[&'static str], msg: String) {
+        if self.ex.failures.len() < 200 {
+            self.ex.failures.push(exec::Failure { props: props.to_vec(), msg, script: vec![] });
         }
     }
     pub fn finish(&mut self) {
@@ -101,6 +118,14 @@ fn write_report(path: &str, name: &str, seed: u64, sink: &Sink, extra: &[(String
     writeln!(f, " \"matrix\": {{{}}},", mx.iter().map(|(k, v)| format!("{}: {}", jstr(k), v)).collect::<Vec<_>>().join(", ")).unwrap();
     for (k, v) in extra {
         writeln!(f, " {}: {},", jstr(k), v).unwrap();
+    }
+    let o = &sink.oracle;
+    if o.evaluations > 0 {
+        writeln!(f, " \"oracle_evaluations\": {},", o.evaluations).unwrap();
+        writeln!(f, " \"oracle_distinct_nontrivial\": {},", o.distinct_nontrivial).unwrap();
+        writeln!(f, " \"exhaustive\": {},", o.exhaustive).unwrap();
+        writeln!(f, " \"oracle_samples\": [{}],", o.samples.iter().map(|x| jstr(x)).collect::<Vec<_>>().join(",")).unwrap();
+        writeln!(f, " \"oracle_detail\": {{{}}},", o.detail.iter().map(|(k, v)| format!("{}: {}", jstr(k), v)).collect::<Vec<_>>().join(", ")).unwrap();
     }
     writeln!(f, " \"failures\": [").unwrap();
     for (i, fl) in ex.failures.iter().enumerate() {
